@@ -430,9 +430,9 @@ func (s *Service) accountPathsToVerificationRegexes(paths []string) map[string][
 			parts[1] = ".*"
 		}
 		parts[0] = strings.TrimPrefix(parts[0], "^")
-		parts[0] = strings.TrimSuffix(parts[0], "$")
+		parts[0] = utils.TrimEndAnchor(parts[0])
 		parts[1] = strings.TrimPrefix(parts[1], "^")
-		parts[1] = strings.TrimSuffix(parts[1], "$")
+		parts[1] = utils.TrimEndAnchor(parts[1])
 		specifier := fmt.Sprintf("^%s/%s$", parts[0], parts[1])
 		regex, err := regexp.Compile(specifier)
 		if err != nil {
